@@ -196,6 +196,11 @@ func genReq(g *rand.Rand, cfg *resCfg, property string) resReq {
 			r.Bind = true
 		}
 	}
+	if property == "C05" && g.IntN(6) == 0 {
+		// off the share base's grid (clear of the half-way point): "to the nearest piece"
+		r.CPUReq = (float64(1+g.IntN(3*sb)) + []float64{0.3, 0.7}[g.IntN(2)]) / float64(sb)
+		r.Bind = true
+	}
 	if !r.Bind && g.IntN(4) == 0 {
 		r.CPUReq = 0
 	}
@@ -244,6 +249,13 @@ func genResOp(g *rand.Rand, cfg *resCfg, property string) resOp {
 		}
 		if property == "C33" && g.IntN(2) == 0 {
 			r.Keep, r.CPUReq = true, 0
+		}
+		if g.IntN(5) == 0 {
+			// the limit moves on its own (a bound workload's request follows its limit up)
+			r.CPULimit = float64(1+g.IntN(2*sb)) / float64(sb)
+			if g.IntN(3) == 0 {
+				r.CPUReq = 0
+			}
 		}
 		switch g.IntN(3) {
 		case 0:
